@@ -34,12 +34,46 @@ def _tid_of(t):
     return _state["ids"][key]
 
 
+def _family(dt):
+    """static dtype -> family token (sizes and const-ness dropped)"""
+    from pydiverse.transform._internal.tree import types
+
+    try:
+        dt = types.without_const(dt)
+        if dt.is_int():
+            return "Int"
+        if dt.is_float():
+            return "Float"
+        n = type(dt).__name__
+        return {"Enum": "String", "NullType": "Null"}.get(n, n)
+    except Exception:  # noqa: BLE001
+        return "?"
+
+
+def _pl_family(d):
+    """polars dtype of an exported frame -> the same family tokens"""
+    s = str(d)
+    if s.startswith(("Int", "UInt")):
+        return "Int"
+    if s.startswith("Float"):
+        return "Float"
+    if s == "Boolean":
+        return "Bool"
+    if s.startswith(("String", "Utf8", "Enum", "Categorical")):
+        return "String"
+    for k in ("Datetime", "Date", "Duration", "Time", "Decimal", "List", "Null"):
+        if s.startswith(k):
+            return k
+    return s
+
+
 def _meta(t):
     c = t._cache
     names = list(c.name_to_uuid.keys())
     part = [c.uuid_to_name.get(u, "?hidden") for u in c.partition_by]
     hidden = sorted({col.name for u, col in c.cols.items() if u not in c.uuid_to_name})
     return dict(names=names, part=part, hidden=hidden, sql=[int(c.limit), len(c.group_by), bool(c.is_filtered)],
+                dts=[_family(c.cols[u].dtype()) for u in c.name_to_uuid.values()],
                 backend=c.backend.backend_name, ph=any(u not in c.uuid_to_name for u in c.partition_by),
                 marker=any(type(nd).__name__ == "SubqueryMarker" for nd in t._ast.iter_subtree_preorder()))
 
@@ -163,7 +197,7 @@ def _wrapped_call(orig):
                     ev.update(_meta(res))
                 else:
                     ev["out"] = 0
-                    ev.update(dict(names=[], part=[], hidden=[], sql=[0, 0, False], backend=arg._cache.backend.backend_name, ph=False, marker=False))
+                    ev.update(dict(names=[], part=[], hidden=[], sql=[0, 0, False], backend=arg._cache.backend.backend_name, ph=False, marker=False, dts=[]))
                     if err == "" and name == "export":
                         cols = None
                         if hasattr(res, "collect_schema"):
@@ -175,6 +209,12 @@ def _wrapped_call(orig):
                         if cols is not None:
                             ev["names"] = cols
                             ev["verb"] = "export_cols"
+                            try:
+                                sch = res.collect_schema() if hasattr(res, "collect_schema") else None
+                                if sch is not None and type(res).__module__.startswith("polars"):
+                                    ev["dts"] = [_pl_family(sch[n]) for n in cols]
+                            except Exception:  # noqa: BLE001
+                                pass
                     elif err == "" and name == "columns":
                         ev["names"] = list(res)
                         ev["verb"] = "export_cols"
